@@ -645,7 +645,8 @@ class Explorer:
         self.stack = [[]]
         t_start = time.time()
         budget = float(os.environ.get("PYVC_UNIT_BUDGET_S", "1500"))
-        while self.stack:
+        stop = False
+        while self.stack and not stop:
             prefix = self.stack.pop()
             if time.time() - t_start > budget:
                 self.record(Obligation(self.label + "/paths", "undecided",
@@ -680,6 +681,8 @@ class Explorer:
             except Unsupported as e:
                 self.record(Obligation(self.label + "/engine", "undecided",
                                        detail="unsupported: %s" % (e,), path=repr(c.decisions)))
+                if isinstance(e, sym.UnsupportedUnit):
+                    stop = True
             finally:
                 self.unknown_forks += c.unknown_forks
                 sym.set_ctx(None)
